@@ -19,6 +19,18 @@ NumberOrArray = TypeVar("NumberOrArray", np.ndarray, float)
 IntOrIntArray = TypeVar("IntOrIntArray", np.ndarray, int)
 
 
+def _integers_to_float(value: NumberOrArray) -> NumberOrArray:
+    """
+    Convert a numpy integer (scalar or array) to double precision.
+
+    numpy calculates the logarithm of 8 bit (16 bit) integers in half
+    (single) precision.
+    """
+    if isinstance(value, (np.ndarray, np.generic)) and value.dtype.kind in 'iu':
+        return value.astype(float)  # type: ignore
+    return value
+
+
 def single_matrix_to_matrix_of_matrices(
         single_matrix: np.ndarray,
         nrows: Optional[np.ndarray] = None,
@@ -177,7 +189,7 @@ def linear2dB(valueInLinear: NumberOrArray) -> NumberOrArray:
     >>> linear2dB(1000)
     30.0
     """
-    return 10.0 * np.log10(valueInLinear)  # type: ignore
+    return 10.0 * np.log10(_integers_to_float(valueInLinear))  # type: ignore
 
 
 def dBm2Linear(valueIndBm: NumberOrArray) -> NumberOrArray:
@@ -299,7 +311,7 @@ def SNR_dB_to_EbN0_dB(SNR: NumberOrArray, bits_per_symb: int) -> NumberOrArray:
         Eb/N0 value (in dB)
 
     """
-    EbN0 = SNR - 10 * np.log10(bits_per_symb)
+    EbN0 = SNR - 10 * np.log10(_integers_to_float(bits_per_symb))
 
     return EbN0  # type: ignore
 
@@ -321,5 +333,5 @@ def EbN0_dB_to_SNR_dB(EbN0: NumberOrArray,
         SNR value (in dB)
 
     """
-    SNR = EbN0 + 10 * np.log10(bits_per_symb)
+    SNR = EbN0 + 10 * np.log10(_integers_to_float(bits_per_symb))
     return SNR  # type: ignore
